@@ -128,11 +128,12 @@ type PkgContracts struct {
 	Contracts   []*Contract
 	Transparent map[string]bool // Key()s of functions that are inlined instead of having a contract
 	Opaque      map[string]bool // recursive spec functions treated as uninterpreted with one-step unfolding
+	Recursive   map[string]bool // opaque + quantified defining axiom
 	Imports     map[string]string
 	Assumes     []string
 }
 
-var kwRe = regexp.MustCompile(`^(func|props|requires|ensures|modifies|loop|invariant|decreases|split|paths|cases|transparent|opaque|end|trusted|bounded)\b`)
+var kwRe = regexp.MustCompile(`^(func|props|requires|ensures|modifies|loop|invariant|decreases|split|paths|cases|transparent|opaque|recursive|end|trusted|bounded)\b`)
 
 // ParseDir parses the contract file of one package directory (nil if none).
 func ParseDir(dir, pkgPath string) (*PkgContracts, error) {
@@ -144,7 +145,7 @@ func ParseDir(dir, pkgPath string) (*PkgContracts, error) {
 		}
 		return nil, err
 	}
-	pc := &PkgContracts{PkgPath: pkgPath, Dir: dir, Transparent: map[string]bool{}, Opaque: map[string]bool{}, Imports: map[string]string{}}
+	pc := &PkgContracts{PkgPath: pkgPath, Dir: dir, Transparent: map[string]bool{}, Opaque: map[string]bool{}, Recursive: map[string]bool{}, Imports: map[string]string{}}
 	fset := token.NewFileSet()
 	// package name and imports from all non-test files of the directory
 	ents, _ := os.ReadDir(dir)
@@ -222,6 +223,12 @@ func ParseDir(dir, pkgPath string) (*PkgContracts, error) {
 		case "opaque":
 			for _, f := range strings.Fields(strings.ReplaceAll(rest, ",", " ")) {
 				pc.Opaque[f] = true
+			}
+			lastClause = nil
+		case "recursive":
+			for _, f := range strings.Fields(strings.ReplaceAll(rest, ",", " ")) {
+				pc.Opaque[f] = true
+				pc.Recursive[f] = true
 			}
 			lastClause = nil
 		default:
